@@ -109,9 +109,10 @@ impl<K, V> BTreeMap<K, V> {
 { unimplemented!() }
 /// the set value with these elements / the record value with these fields (Value::set / Value::record; unit value_set covers Set)
 pub uninterp spec fn mk_set(ks: Seq<ValueKind>) -> ValueKind;
+pub open spec fn pair_kinds(s: Seq<(SmolStr, Value)>) -> Seq<(SmolStr, ValueKind)> { s.map_values(|p: (SmolStr, Value)| (p.0, p.1.value)) }
 pub open spec fn kinds_of(vs: Seq<Value>) -> Seq<ValueKind> { vs.map_values(|v: Value| v.value) }
 pub uninterp spec fn mk_record(ks: Seq<(SmolStr, ValueKind)>) -> ValueKind;
 impl Value {
     #[verifier::external_body] pub fn set(vals: VxIter<Value>, l: Option<Loc>) -> (r: Value) ensures r.value == mk_set(kinds_of(vals.items())) { unimplemented!() }
-    #[verifier::external_body] pub fn record(vals: VxIter<(SmolStr, Value)>, l: Option<Loc>) -> (r: Value) ensures r.value == mk_record(vals.items().map_values(|p: (SmolStr, Value)| (p.0, p.1.value))) { unimplemented!() }
+    #[verifier::external_body] pub fn record(vals: VxIter<(SmolStr, Value)>, l: Option<Loc>) -> (r: Value) ensures r.value == mk_record(pair_kinds(vals.items())) { unimplemented!() }
 }
